@@ -177,6 +177,38 @@ func statusSequences() [][]int {
 	return out
 }
 
+// long-lived Buffer instances: one per retry expression (and verbose flag) serves every method and status
+// sequence, one exchange after the other; the handler behind it is swapped per exchange. See c06.go.
+type c07instance struct {
+	b   *buffer.Buffer
+	err error
+	cur http.Handler
+}
+
+var c07instances = map[string]*c07instance{}
+
+func c07instanceFor(p *expr) *c07instance {
+	name := "<no retry option>"
+	if p != nil {
+		name = p.String()
+	}
+	key := fmt.Sprintf("%s/%v", name, verboseRun)
+	if in, ok := c07instances[key]; ok {
+		return in
+	}
+	in := &c07instance{}
+	var opts []buffer.Option
+	if verboseRun {
+		opts = append(opts, buffer.Verbose(true), buffer.Logger(lib.FormatLogger{}))
+	}
+	if p != nil {
+		opts = append(opts, buffer.Retry(p.String()))
+	}
+	in.b, in.err = buffer.New(http.HandlerFunc(func(w http.ResponseWriter, r *http.Request) { in.cur.ServeHTTP(w, r) }), opts...)
+	c07instances[key] = in
+	return in
+}
+
 func runProgram(p *expr, method string, seq []int, rep *lib.Report) {
 	invoked := 0
 	h := http.HandlerFunc(func(w http.ResponseWriter, r *http.Request) {
@@ -188,17 +220,9 @@ func runProgram(p *expr, method string, seq []int, rep *lib.Report) {
 		}
 		fmt.Fprintf(w, "attempt-%d;", invoked)
 	})
-	var b *buffer.Buffer
-	var err error
-	var opts []buffer.Option
-	if verboseRun {
-		opts = append(opts, buffer.Verbose(true), buffer.Logger(lib.FormatLogger{}))
-	}
-	if p == nil {
-		b, err = buffer.New(h, opts...)
-	} else {
-		b, err = buffer.New(h, append(opts, buffer.Retry(p.String()))...)
-	}
+	in := c07instanceFor(p)
+	in.cur = h
+	b, err := in.b, in.err
 	name := "<no retry option>"
 	if p != nil {
 		name = p.String()
@@ -466,7 +490,7 @@ func RunC07(tier string, sh lib.Shard, rep *lib.Report) {
 	rep.Bounds["programs"] = len(progs) + 1
 	rep.Bounds["status_sequences"] = len(seqs)
 	rep.Bounds["response_shapes"] = len(shs)
-	rep.Rule = "(a) every generated retry expression (all 61 atoms; covering selection of 1- and 2-connective compounds, with/without parentheses; plus 'no retry option') x method {GET,POST; and get,Post,PATCH for programs that read the method} x 31 per-attempt status sequences, run on the real buffer and compared with a reference evaluator (expected invocations = min(11, first attempt whose predicate is false)) and with the final attempt's marker; (b) every response shape status x header set x body chunking, with and without a discarded first attempt, through a real loopback server and a raw TCP client that must read exactly one well-formed response; non-trivial = programs that retried + shapes after a discarded attempt"
+	rep.Rule = "(a) every generated retry expression (all 61 atoms; covering selection of 1- and 2-connective compounds, with/without parentheses; plus 'no retry option') x method {GET,POST; and get,Post,PATCH for programs that read the method} x 31 per-attempt status sequences, run on the real buffer (one long-lived instance per expression serving all its exchanges in sequence) and compared with a reference evaluator (expected invocations = min(11, first attempt whose predicate is false)) and with the final attempt's marker; (b) every response shape status x header set x body chunking, with and without a discarded first attempt, through a real loopback server and a raw TCP client that must read exactly one well-formed response; non-trivial = programs that retried + shapes after a discarded attempt"
 	rep.Assume("an attempt without explicit status may be read as code 0 or 200 by the retry expression (either count accepted)")
 	rep.Require("programs_that_retried", "programs_hitting_the_cap", "shapes_after_a_discarded_attempt", "shapes_with_implicit_status", "shapes_with_empty_body")
 	all := append([]*expr{nil}, progs...)
@@ -547,7 +571,33 @@ func ReplayC07(rp map[string]any) (bool, string) {
 		if !found {
 			return false, "unknown program"
 		}
-		runProgram(prog, rp["method"].(string), seq, rep)
+		// the expression's long-lived instance had served other exchanges before this one: re-run them in the same order
+		c07instances = map[string]*c07instance{}
+		target := fmt.Sprint(seq)
+		method := rp["method"].(string)
+		ms := []string{"GET", "POST"}
+		if prog != nil && strings.Contains(prog.String(), "RequestMethod") {
+			ms = append(ms, "get", "Post", "PATCH")
+		}
+		seqs := statusSequences()
+		if verboseRun {
+			ms, seqs = []string{"POST"}, seqs[:12]
+		}
+		done := false
+		for _, m := range ms {
+			for _, sq := range seqs {
+				if done {
+					break
+				}
+				rep = lib.NewReport("C07", "replay")
+				runProgram(prog, m, sq, rep)
+				done = m == method && fmt.Sprint(sq) == target
+			}
+		}
+		if !done {
+			rep = lib.NewReport("C07", "replay")
+			runProgram(prog, method, seq, rep)
+		}
 	}
 	if len(rep.Violations) > 0 {
 		return true, rep.Violations[0].Key + " :: " + strings.SplitN(rep.Violations[0].Detail, "\n", 2)[0]
